@@ -22,8 +22,8 @@ import ast
 
 from .. import rx
 from ..core import AnalysisError
-from .c03 import (Ev, Unresolved, _strip_doc, dotted, extractor_closure, is_self_attr, method_params, reachable_methods, registrations,
-                  slot, strip_safe_regexp)
+from .c03 import (Ev, Unresolved, _strip_doc, dotted, extractor_closure, init_assignments, is_self_attr, method_params, reachable_methods,
+                  registrations, slot, strip_safe_regexp)
 
 LEVEL = 'other'
 DESIGN_REF = 'DESIGN.md#c13'
@@ -356,6 +356,8 @@ def run(chk):
     chk.rule('C13.guid.element', 'GUID element = 8-4-4-4-12 or 32 characters over exactly [0-9a-f]', floor=3, control=True)
     chk.rule('C13.guid.wrap', 'every GUID wrapper contains exactly one element; plain and braced forms exist', floor=4, control=True)
     chk.rule('C13.guid.case', 'upper-case GUIDs are covered (IGNORECASE, lower-casing model, or class)', floor=1, control=True)
+    chk.rule('C13.guid.score', 'the GUID scorer locates the element anywhere in a decorated GUID text (not anchored at offset 0)', floor=1,
+             control=True)
     chk.rule('C13.value.ip', 'the IP value is produced only by drop_leading_zeros(text)', floor=1, control=True)
     chk.rule('C13.value.text', 'sequence parsers set resolution_str := text', floor=4, control=True)
     chk.rule('C13.model', 'sequence models copy text and take \'value\' from resolution_str; data filters are fed', floor=6, control=True)
@@ -523,16 +525,24 @@ def run(chk):
             elem_src = None
             res_path = rv.cls.mod.path
             if sc is not None:
-                for n in ast.walk(sc):
-                    if isinstance(n, ast.Attribute) and isinstance(n.value, ast.Name):
-                        c = idx.resolve_class(k_sc.mod, n.value)
-                        if c is not None and 'GUID' in c.name.upper():
-                            try:
-                                v = ev.class_const(c, n.attr)
-                            except Unresolved:
-                                continue
-                            if isinstance(v, str):
-                                elem_src, res_path = v, c.mod.path
+                scopes = [sc]
+                # class attributes (possibly compiled) that score_guid reads through self.<attr>
+                used = {n.attr for n in ast.walk(sc) if is_self_attr(n)}
+                for kk in idx.mro(pcls):
+                    for an, av in kk.attrs.items():
+                        if an in used:
+                            scopes.append(av)
+                for scope in scopes:
+                    for n in ast.walk(scope):
+                        if isinstance(n, ast.Attribute) and isinstance(n.value, ast.Name):
+                            c = idx.resolve_class(k_sc.mod, n.value)
+                            if c is not None and 'GUID' in c.name.upper():
+                                try:
+                                    v = ev.class_const(c, n.attr)
+                                except Unresolved:
+                                    continue
+                                if isinstance(v, str):
+                                    elem_src, res_path = v, c.mod.path
             if elem_src is None:
                 raise AnalysisError('GUID element pattern (used by %s.score_guid) not found' % pcls.name)
             chk.consulted(res_path)
@@ -590,6 +600,20 @@ def run(chk):
                       'compiled IGNORECASE: %s; model lower-cases: %s; class has A-F: %s' % (ci, lowers, class_upper),
                       '%s: upper-case GUIDs are not covered (pattern compiled with flags %s, %s.parse does not lower-case, classes are '
                       'lower-case only)' % (rv.name, rv.flags, r.model_cls.name), rv.line)
+            # scoring must find the element anywhere in the (possibly decorated) GUID text
+            calls = guid_locating_calls(idx, pcls, k_sc, sc)
+            if not calls:
+                raise AnalysisError('%s.score_guid: the call that locates the GUID element was not recognised' % pcls.name)
+            decorated = sorted(w.replace(G, '<guid>') for w in wlang if not w.startswith(G))
+            for node, how in calls:
+                anchored = how in ('match', 'fullmatch')
+                chk.judge(not (anchored and decorated), 'C13.guid.score', k_sc.mod.path, '%s.score_guid: %s' % (pcls.name, ast.unparse(node.func)),
+                          '%s; layouts with a prefix before the element: %s' % ('anchored at offset 0' if anchored else 'searches the whole text',
+                                                                               decorated),
+                          '%s.score_guid locates the GUID element with %s(), which only matches at offset 0, but the extractor pattern %s also '
+                          'yields texts in which the element is preceded by a decoration (%s): match() returns None there, .group() raises '
+                          'AttributeError and the model swallows it - the whole query returns nothing' % (pcls.name, how, rv.name, ', '.join(decorated)),
+                          node.lineno)
 
     # ================= values ==================================================================================
     pr_cls, copied = parse_result_copies(ev)
@@ -651,6 +675,11 @@ def run(chk):
     chk.control('C13.guid.element', {c for c in rx.class_chars(rx.parse('[a-e0-9]'))} != HEX)
     chk.control('C13.guid.wrap', ('{' + G + G + '}').count(G) != 1)
     chk.control('C13.guid.case', not compiled_ignorecase(ev, 'regex.S'))
+    from ..index import Cls as _Cls
+    _gm = idx.mod('recognizers_sequence.sequence.english.parsers')
+    _ctl = _Cls(_gm, ast.parse("class GP:\n    guid_element_regex = re.compile(BaseGUID.GUIDRegexElement)\n    def score_guid(self, t):\n"
+                               "        m = self.guid_element_regex.match(t)\n        return m.group()\n").body[0])
+    chk.control('C13.guid.score', [h for _n, h in guid_locating_calls(idx, _ctl, _ctl, _ctl.methods['score_guid'])] == ['match'])
     from ..index import Cls
     pmod = idx.mod('recognizers_sequence.sequence.parsers')
     ctl = Cls(pmod, ast.parse("class P:\n    def parse(self, e):\n        r = ParseResult(e)\n        r.resolution_str = e.text\n"
@@ -665,6 +694,41 @@ def run(chk):
                               "        return {'value': d.text}\n").body[0])
     chk.control('C13.model', model_facts(ev, ctl)['value_src'] != 'resolution_str')
     chk.exhaustive = True
+
+
+def guid_locating_calls(idx, pcls, k_sc, sc):
+    """calls in score_guid that apply the GUID element pattern to the text -> [(call node, 'search'|'finditer'|'match'|...)]"""
+    def mentions_guid(e):
+        for n in ast.walk(e):
+            if isinstance(n, ast.Attribute) and isinstance(n.value, ast.Name):
+                c = idx.resolve_class(k_sc.mod, n.value)
+                if c is not None and 'GUID' in c.name.upper():
+                    return True
+        return False
+    pattern_names, pattern_attrs = set(), set()
+    for kk in idx.mro(pcls):
+        for an, av in kk.attrs.items():
+            if mentions_guid(av):
+                pattern_attrs.add(an)
+    for n in ast.walk(sc):
+        if isinstance(n, ast.Assign) and len(n.targets) == 1 and isinstance(n.targets[0], ast.Name):
+            if mentions_guid(n.value) or (is_self_attr(n.value) and n.value.attr in pattern_attrs):
+                pattern_names.add(n.targets[0].id)
+
+    def is_pattern(e):
+        return (isinstance(e, ast.Name) and e.id in pattern_names) or (is_self_attr(e) and e.attr in pattern_attrs) or \
+            (isinstance(e, ast.Attribute) and mentions_guid(e)) or \
+            (isinstance(e, ast.Call) and dotted(e.func) in ('re.compile', 'regex.compile') and e.args and is_pattern(e.args[0]))
+    out = []
+    methods = ('search', 'finditer', 'findall', 'match', 'fullmatch')
+    for n in ast.walk(sc):
+        if isinstance(n, ast.Call) and isinstance(n.func, ast.Attribute) and n.func.attr in methods:
+            recv = n.func.value
+            if is_pattern(recv):
+                out.append((n, n.func.attr))
+            elif isinstance(recv, ast.Name) and recv.id in ('re', 'regex') and n.args and is_pattern(n.args[0]):
+                out.append((n, n.func.attr))
+    return out
 
 
 def _inside_class(root, node):
@@ -1392,6 +1456,8 @@ def rule_index_lower_and_prefix(chk):
     def values_of(mod, e):
         """evaluate a pattern / marker expression: resource constant, or self.config.<slot> over the phone configurations"""
         d = dotted(e)
+        if d and d.startswith('config.'):       # constructor parameter of the extractor
+            d = 'self.' + d
         if d and d.startswith('self.config.'):
             out = []
             for c in phone_cfgs:
@@ -1426,6 +1492,8 @@ def rule_index_lower_and_prefix(chk):
                                 fronts[v] = (val.value.id, ast.unparse(up), 0, n.lineno)
                     if isinstance(val, ast.Call) and dotted(val.func) in ('re.compile', 'regex.compile') and val.args:
                         compiled[v] = val.args[0]
+                    elif is_self_attr(val) and val.attr != 'config':
+                        compiled[v] = val
             pairs = [(chv, fv) for chv, (t1, x1) in ch_locals.items() for fv, (t2, x2, k, _l) in fronts.items() if t1 == t2 and x1 == x2]
             if not pairs:
                 continue
@@ -1439,7 +1507,13 @@ def rule_index_lower_and_prefix(chk):
                     pexpr = e.func.value
                     if isinstance(pexpr, ast.Name) and pexpr.id in compiled:
                         pexpr = compiled[pexpr.id]
-                    elif isinstance(pexpr, ast.Call) and dotted(pexpr.func) in ('re.compile', 'regex.compile') and pexpr.args:
+                    if is_self_attr(pexpr) and pexpr.attr != 'config':
+                        plain, _cond = init_assignments(idx, cls, pexpr.attr)
+                        if not plain:
+                            raise AnalysisError('%s.%s:%d %s searched in %s is never assigned unconditionally in __init__'
+                                                % (cls.name, fn.name, e.lineno, ast.unparse(pexpr), fv))
+                        pexpr = plain[-1][1].value
+                    if isinstance(pexpr, ast.Call) and dotted(pexpr.func) in ('re.compile', 'regex.compile') and pexpr.args:
                         pexpr = pexpr.args[0]
                     markers = None
                     flat = []
@@ -1499,3 +1573,78 @@ _run_before_index_lower = run
 def run(chk):       # noqa: F811
     _run_before_index_lower(chk)
     rule_index_lower_and_prefix(chk)
+
+
+# ---------------------------------------------------------------------------------------------------------------
+# C13.config-slots: override discipline.  An extractor that is constructed with a configuration object must read every
+# pattern / marker slot through that object.  For each extractor class and each slot some registered configuration defines:
+# if the configurations of the registered cultures do not all yield the same value, the extractor class must not reference
+# any of the resource constants the slot is wired from directly - that would silently ignore the other culture's override.
+
+def rule_config_slots(chk):
+    ev = Ev()
+    idx = ev.idx
+    chk.rule('C13.config-slots', 'an extractor reads culture-dependent configuration slots through its configuration, never through '
+                                 'one culture\'s resource constant', floor=6, control=True)
+    groups = {}
+    for r in registrations(ev, SEQ_RECOGNIZER):
+        e = r.args.get('extractor')
+        if isinstance(e, ast.Call) and e.args and isinstance(e.args[0], ast.Call):
+            ecls, ccls = idx.resolve_class(r.mod, e.func), idx.resolve_class(r.mod, e.args[0].func)
+            if ecls is not None and ccls is not None:
+                groups.setdefault(ecls.qual, (ecls, []))[1].append(ccls) if ccls not in groups.get(ecls.qual, (None, []))[1] else None
+    if not groups:
+        raise AnalysisError('no sequence extractor constructed from a configuration object found')
+    for _q, (ecls, cfgs) in sorted(groups.items()):
+        chk.consulted(ecls.mod.path)
+        slots = []
+        for c in cfgs:
+            chk.consulted(c.mod.path)
+            for k in idx.mro(c):
+                if not k.mod.name.startswith('recognizers_'):
+                    continue
+                for name, fn in k.methods.items():
+                    if name.startswith('__') or '#' in name or name in slots:
+                        continue
+                    if any(isinstance(d, ast.Name) and d.id == 'property' for d in fn.decorator_list):
+                        slots.append(name)
+        used = {}
+        for k in idx.mro(ecls):
+            if not k.mod.name.startswith('recognizers_'):
+                continue
+            for fn in k.methods.values():
+                for n in ast.walk(fn):
+                    if isinstance(n, ast.Attribute) and isinstance(n.value, ast.Name):
+                        used.setdefault(dotted(n), n.lineno)
+        for s_ in sorted(slots):
+            per_cfg = []
+            for c in cfgs:
+                try:
+                    sl = slot(ev, c, s_)
+                except AnalysisError:
+                    continue
+                if isinstance(sl.value, (str, list)):
+                    per_cfg.append((c.name, sl.origin, sl.value))
+            if len(per_cfg) < 1:
+                continue
+            distinct = {repr(v) for _c, _o, v in per_cfg}
+            origins = sorted({o for _c, o, _v in per_cfg if o in used})
+            construct = '%s <- %s.%s' % (ecls.name, '/'.join(c.name for c in cfgs), s_)
+            if len(distinct) <= 1 and len(per_cfg) == len(cfgs):
+                chk.ok('C13.config-slots', ecls.mod.path, construct, 'same value in every registered configuration', None)
+                continue
+            chk.judge(not origins, 'C13.config-slots', ecls.mod.path, construct,
+                      'culture-dependent (%d distinct values); direct resource references in the extractor: %s' % (len(distinct), origins),
+                      '%s reads %s directly (line %s) although the slot %s differs between the registered configurations (%s): the '
+                      'override of the other culture(s) is ignored' % (
+                          ecls.name, ', '.join(origins), ', '.join(str(used[o]) for o in origins), s_,
+                          '; '.join('%s: %s' % (c_, o_) for c_, o_, _v in per_cfg)), used[origins[0]] if origins else None)
+    chk.control('C13.config-slots', len({repr('(([a-z])\\s*$)'), repr('(([a-z]|[\\u4E00-\\u9FA5])\\s*$)')}) > 1)
+
+
+_run_before_config_slots = run
+
+
+def run(chk):       # noqa: F811
+    _run_before_config_slots(chk)
+    rule_config_slots(chk)
